@@ -47,10 +47,10 @@ theorem descendants_of_mutable_are_mutable {g : Graph} (hg : Topo g) (heads s : 
 
 /-! ### the command table -/
 
-private theorem desc_self (g : Graph) (s : List Nat) (x : Nat) (h : x ∈ s) : x ∈ descendants g s :=
+theorem desc_self (g : Graph) (s : List Nat) (x : Nat) (h : x ∈ s) : x ∈ descendants g s :=
   closeDown_mono g s x h
 
-private theorem desc_sub (g : Graph) (s1 s2 : List Nat) (h : ∀ x ∈ s1, x ∈ s2) (x : Nat)
+theorem desc_sub (g : Graph) (s1 s2 : List Nat) (h : ∀ x ∈ s1, x ∈ s2) (x : Nat)
     (hx : x ∈ descendants g s1) : x ∈ descendants g s2 :=
   closeDown_subset g s1 s2 h x hx
 
